@@ -66,10 +66,13 @@ class StmtMixin(object):
 
     def s_Raise(self, st, s):
         if s.exc is None:
-            exc = getattr(self.frame(), 'current_exc', None)
-            if exc is None:
+            excs = getattr(self.frame(), 'current_excs', None)
+            if not excs:
                 raise EngineError('bare raise outside handler')
-            self.raise_exit(st, exc, None, s.lineno)
+            # the exception being handled is raised again: one exit per class that reached this handler
+            for cls, g in excs[:-1]:
+                self.raise_exit(st, cls, g, s.lineno)
+            self.raise_exit(st, excs[-1][0], None, s.lineno)
             return
         msg = None
         if isinstance(s.exc, pyast.Call):
@@ -365,10 +368,21 @@ class StmtMixin(object):
                 ev = fresh('exc', Val)
                 hs.vars[h.name] = V(ev, parse_spec('opaque'))
                 hs.vars['$exc_msg_' + h.name] = msgs[0] if len(caught) == 1 and msgs[0] is not None else V(fresh('excmsg'), parse_spec('str'))
-            old_exc = getattr(fr, 'current_exc', None)
-            fr.current_exc = caught[0].exc if len({c.exc for c in caught}) == 1 else Exception
+                # OSError and its subclasses: CPython chooses the subclass from errno (PEP 3151)
+                import errno as _errno
+                en = self.get_uf('opaque_attr_errno', Val, Val)(ev)
+                for c0 in caught:
+                    if issubclass(c0.exc, FileNotFoundError):
+                        self.assumes.append(z3.Implies(c0.state.guard, en == mkI(_errno.ENOENT)))
+                    elif issubclass(c0.exc, PermissionError):
+                        self.assumes.append(z3.Implies(c0.state.guard, Or(en == mkI(_errno.EACCES), en == mkI(_errno.EPERM))))
+                    elif c0.exc is OSError:
+                        self.assumes.append(z3.Implies(c0.state.guard, And(en != mkI(_errno.ENOENT), en != mkI(_errno.EACCES),
+                                                                         en != mkI(_errno.EPERM))))
+            old_excs = getattr(fr, 'current_excs', None)
+            fr.current_excs = [(c0.exc, c0.state.guard) for c0 in caught]
             self.exec_block(hs, h.body)
-            fr.current_exc = old_exc
+            fr.current_excs = old_excs
             handled_states.append(hs)
         if s.orelse:
             self.exec_block(st, s.orelse)
